@@ -58,6 +58,10 @@ class Replica:
                 if isinstance(v, type) and getattr(v, '__module__', '').startswith('bitstring'):
                     for a2 in sorted(vars(v)):
                         note(f'{mname}.{attr}', a2, vars(v)[a2])
+                elif getattr(type(v), '__module__', '').startswith('bitstring') and isinstance(getattr(v, '__dict__', None), dict):
+                    # a module-level singleton (options, the dtype register ...): containers it holds as instance attributes
+                    for a2 in sorted(vars(v)):
+                        note(f'{mname}.{attr}', a2, vars(v)[a2])
         return out
 
     def restore_containers(self):
